@@ -46,7 +46,7 @@ def _lock(kinds, prop):
 
 
 PROPERTIES = {
-    'C16': dict(units=ENGINES_SCORES + ['interference', 'registry', 'stats_registry'] + WRAPPERS, extra=[_lock(['cell'], 'C16')],
+    'C16': dict(units=ENGINES_SCORES + ['interference', 'registry', 'stats_registry'] + WRAPPERS, extra=[_lock(['cell'], 'C16'), _reg('C16')],
                 explanation='panic freedom of every extracted engine function (overflow, indexing, unwrap, callee preconditions such as rand_below(n > 0)) proved by Verus, '
                             'the wrapper tails and invalidation callbacks the macros emit for the fixture corpus (unwrap, indexing, callee preconditions), plus RefCell guard-liveness obligations on the original thread_local_cache.rs (no borrow_mut while a borrow of the same cell is live); unit interference: the global lookup/store paths and the async lookup/insert path stay panic-free and terminate even when every lock acquisition / DashMap operation sees arbitrarily changed data (concurrent interference)',
                 assumptions=['limit >= 1 where the async engine requires it; counters unsaturated; totals fit usize', 'user closures / estimators / Debug impls do not panic']),
